@@ -8,7 +8,8 @@ import sys
 
 from mc import core
 
-E3_CONFIGS = [("pydantic", "flat", "default"), ("pydantic", "nested", "default"), ("dataclasses", "flat", "exact"), ("attrs", "flat", "default")]
+E3_CONFIGS = [("pydantic", "flat", "default"), ("pydantic", "nested", "default"), ("dataclasses", "flat", "exact"), ("attrs", "flat", "default"),
+              ("base", "nested", "percent_50")]
 
 
 def _perms(n):
